@@ -31,6 +31,7 @@ REQ = {
  '(*dhcpv6/nclient6.Client).Request': ('RFC 8415 §18.2.2', ['call NewRequestFromAdvertise($advertise, $modifiers)'], []),
  'dhcpv4/nclient4.IsCorrectServer$1': ('property C13: server identifier equality', ['return $p.ServerIdentifier().Equal()'], []),
 }
+PARAMS = d.pop('__params__', {})
 out = {}
 bad = 0
 for k in sorted(d):
@@ -42,7 +43,7 @@ for k in sorted(d):
     for f in forb:
         if f in allt:
             print('FORBIDDEN PRESENT', k, f); bad += 1
-    out[k] = {'source': src, 'required': req, 'forbidden': forb, 'lines': d[k]}
+    out[k] = {'source': src, 'required': req, 'forbidden': forb, 'lines': d[k], 'params': PARAMS.get(k, [])}
 for k in REQ:
     if k not in d:
         print('NO FUNCTION', k); bad += 1
